@@ -68,6 +68,7 @@ type Ctx struct {
 
 	trusted map[string]bool // trusted-base items used
 	usedFieldInv map[*FieldInv]bool
+	heapAlias    map[string]Term
 	notes   []string
 }
 
@@ -86,7 +87,7 @@ func newCtx(w *World, fn string, mode ArithMode) *Ctx {
 	c := &Ctx{W: w, Mode: mode, FuncName: fn,
 		declKeys: map[string]bool{}, oblCount: map[string]int{}, structs: map[string]string{},
 		strLits: map[string]string{}, specDone: map[string]bool{}, heapSorts: map[string]heapInfo{},
-		typeTags: map[string]int{}, trusted: map[string]bool{}, usedFieldInv: map[*FieldInv]bool{}}
+		typeTags: map[string]int{}, trusted: map[string]bool{}, usedFieldInv: map[*FieldInv]bool{}, heapAlias: map[string]Term{}}
 	c.prelude()
 	return c
 }
@@ -156,6 +157,10 @@ func (c *Ctx) freshConst(hint string, s Sort) Term {
 // define introduces a named definition in program order.
 func (c *Ctx) define(hint string, t Term) Term {
 	if len(t.S) < 24 && !strings.Contains(t.S, " ") {
+		return t
+	}
+	if hasBoundVar(t.S) {
+		// inside a quantifier / definition body: bound variables cannot escape into a top-level definition
 		return t
 	}
 	n := c.freshName(hint)
@@ -545,12 +550,13 @@ type State struct {
 	cells map[*ssa.Alloc]Term // non-escaping locals
 	heaps map[string]Term     // heap arrays by key; missing = version "base" of that key
 	base  int                 // epoch of untouched heaps (0 = function entry)
+	alts  []baseAlt           // after a merge of different epochs: which epoch applies under which condition
 	alloc Term                // allocation counter
 	ghost map[string]Term     // ghost call counters (called(f))
 }
 
 func (s *State) clone() *State {
-	n := &State{cells: make(map[*ssa.Alloc]Term, len(s.cells)), heaps: make(map[string]Term, len(s.heaps)), alloc: s.alloc, base: s.base}
+	n := &State{cells: make(map[*ssa.Alloc]Term, len(s.cells)), heaps: make(map[string]Term, len(s.heaps)), alloc: s.alloc, base: s.base, alts: append([]baseAlt{}, s.alts...)}
 	for k, v := range s.cells {
 		n.cells[k] = v
 	}
@@ -662,8 +668,25 @@ func (c *Ctx) heapWF(h Term, info heapInfo) {
 	}
 }
 
+type baseAlt struct {
+	cond Term
+	base int
+}
+
 func (c *Ctx) heapGet(st *State, key string) Term {
 	if t, ok := st.heaps[key]; ok {
+		return t
+	}
+	if len(st.alts) > 0 {
+		// a key first used after a merge of different epochs: the merged value, materialised lazily
+		conds := make([]Term, len(st.alts))
+		vals := make([]Term, len(st.alts))
+		for i, a := range st.alts {
+			conds[i] = a.cond
+			vals[i] = c.heapConst(fmt.Sprintf("H%d.%s", a.base, sanitizeSym(key)), key)
+		}
+		t := c.define("mH."+key, iteChain(conds, vals))
+		st.heaps[key] = t
 		return t
 	}
 	return c.heapConst(fmt.Sprintf("H%d.%s", st.base, sanitizeSym(key)), key)
@@ -681,6 +704,7 @@ func (c *Ctx) heapHavoc(st *State, key string) {
 func (c *Ctx) heapHavocAll(st *State) {
 	c.fresh++
 	st.base = c.fresh
+	st.alts = nil
 	st.heaps = map[string]Term{}
 }
 
